@@ -238,9 +238,30 @@ def apps1():
     return out
 
 
+def flat1():
+    """chains with then_stream: RequestBuilder's (sequential flat_map) and StreamBuilder's (flatten_unordered)"""
+    def ch(root, stages, i=1):
+        return {"k": "chain", "id": i, "tid": i + 1, "root": {"k": root, "tag": 1, "val": 1}, "stages": stages,
+                "sink": {"tag": 9}}
+    ts = lambda **kw: dict({"k": "then_stream", "f": "id", "tag": 2}, **kw)
+    base = [
+        ch("stream", [ts()]),
+        ch("stream", [ts(itag=3)]),
+        ch("stream", [{"k": "map", "f": "inc"}, ts(f="dbl"), {"k": "then_req", "f": "id", "tag": 4}]),
+        ch("req", [ts()]),
+        ch("req", [{"k": "then_req", "f": "inc", "tag": 5}, ts(itag=3), {"k": "map", "f": "dbl"}]),
+    ]
+    out = list(base)
+    ev = {"k": "event", "id": 11, "tid": 12, "tag": 8, "val": 3}
+    out.append({"k": "then", "id": 21, "tid": 22, "a": base[1], "b": ev})
+    out.append({"k": "and", "id": 21, "tid": 22, "a": base[0], "b": ev})
+    out.append({"k": "map_event", "id": 21, "tid": 22, "f": "inc", "c": base[2]})
+    return out
+
+
 if __name__ == "__main__":
     fam = sys.argv[1]
-    progs = {"cmd1": cmd1, "scripts": scripts, "scripts2": lambda: scripts2(2), "scripts3": lambda: scripts2(3), "apps1": apps1}[fam]()
+    progs = {"cmd1": cmd1, "scripts": scripts, "scripts2": lambda: scripts2(2), "scripts3": lambda: scripts2(3), "apps1": apps1, "flat1": flat1}[fam]()
     if len(sys.argv) > 2:
         lo, hi = map(int, sys.argv[2].split(":"))
         progs = progs[lo:hi]
